@@ -397,6 +397,194 @@ fn thread_stress(c: &mut Case, n_threads: usize, iters: usize) {
     c.l.sig(mix(0x1313, c.index));
 }
 
+// ---- Run C: one poll racing two drops ---------------------------------------------------------
+
+type TokFut = Pin<Box<dyn Future<Output = Token> + Send>>;
+
+fn tok_req(r: &Arc<Runner>) -> TokFut {
+    let r = r.clone();
+    Box::pin(async move { r.get_token().await })
+}
+
+fn poll_tok(f: &mut TokFut, w: &Waker) -> Poll<Token> {
+    f.as_mut().poll(&mut Context::from_waker(w))
+}
+
+#[derive(Default)]
+struct RaceShared {
+    gen: AtomicUsize,
+    ready: AtomicUsize,
+    done: AtomicUsize,
+    fut: std::sync::Mutex<Option<(TokFut, Waker)>>,
+    res: std::sync::Mutex<Option<Poll<Token>>>,
+    tok: [std::sync::Mutex<Option<Token>>; 2],
+    delay: [AtomicUsize; 3],
+}
+
+fn spin_wait(mut cond: impl FnMut() -> bool) {
+    let mut n = 0u32;
+    while !cond() {
+        n += 1;
+        if n % 1024 == 0 {
+            std::thread::yield_now();
+        } else {
+            std::hint::spin_loop();
+        }
+    }
+}
+
+const RACE_STOP: usize = usize::MAX;
+
+fn race_worker(id: usize, sh: Arc<RaceShared>) {
+    let mut it = 0usize;
+    loop {
+        it += 1;
+        spin_wait(|| sh.gen.load(Ordering::SeqCst) >= it);
+        if sh.gen.load(Ordering::SeqCst) == RACE_STOP {
+            return;
+        }
+        let d = sh.delay[id].load(Ordering::SeqCst);
+        if id == 0 {
+            let (mut f, w) = sh.fut.lock().unwrap().take().expect("racing request");
+            sh.ready.fetch_add(1, Ordering::SeqCst);
+            spin_wait(|| sh.ready.load(Ordering::SeqCst) >= 3 * it);
+            for _ in 0..d {
+                std::hint::spin_loop();
+            }
+            let r = poll_tok(&mut f, &w); // the one racing poll
+            *sh.res.lock().unwrap() = Some(r);
+            *sh.fut.lock().unwrap() = Some((f, w));
+        } else {
+            let t = sh.tok[id - 1].lock().unwrap().take().expect("token to drop");
+            sh.ready.fetch_add(1, Ordering::SeqCst);
+            spin_wait(|| sh.ready.load(Ordering::SeqCst) >= 3 * it);
+            for _ in 0..d {
+                std::hint::spin_loop();
+            }
+            drop(t); // the racing drop
+        }
+        sh.done.fetch_add(1, Ordering::SeqCst);
+    }
+}
+
+/// Limit 2, both slots taken, three requests queued; one queued request has been woken and is
+/// polled by one thread while two other threads each drop a token (released together by a spin
+/// barrier, random skews). At the quiescent point afterwards at least one slot is free: then the
+/// racing request must have got a token or been woken again, or one of the other queued requests
+/// must have been woken — otherwise the freed slot is stranded. `barger`: the woken state arises
+/// from a late get_token that took the freed slot first, else from the semaphore handing the
+/// notification on when the first queued request completed.
+fn poll_drop_race(c: &mut Case, barger: bool, rounds: usize) {
+    let sh = Arc::new(RaceShared::default());
+    let handles: Vec<_> = (0..3)
+        .map(|id| {
+            let sh = sh.clone();
+            std::thread::spawn(move || race_worker(id, sh))
+        })
+        .collect();
+    let w0 = Waker::from(CountWaker::new());
+    let mut failure: Option<Json> = None;
+    let mut raced_ready = 0u64;
+    let mut raced_pending = 0u64;
+    for it in 1..=rounds {
+        let runner = Arc::new(config(64, 2).async_runner());
+        let now = |f: &mut TokFut| match poll_tok(f, &w0) {
+            Poll::Ready(t) => Some(t),
+            Poll::Pending => None,
+        };
+        let (Some(x), Some(y)) = (now(&mut tok_req(&runner)), now(&mut tok_req(&runner))) else {
+            failure = Some(Json::obj().with("problem", "get_token with a free slot and nothing queued was Pending").with("round", it));
+            break;
+        };
+        let mut queued: Vec<(TokFut, Arc<CountWaker>, Waker)> = (0..3)
+            .map(|_| {
+                let c = CountWaker::new();
+                (tok_req(&runner), c.clone(), Waker::from(c))
+            })
+            .collect();
+        let mut setup_ok = true;
+        for (f, _, w) in queued.iter_mut() {
+            setup_ok &= poll_tok(f, w).is_pending();
+        }
+        drop(x); // slot free -> the first queued request is woken
+        setup_ok &= queued[0].1.count() == 1;
+        let (other, racer) = if barger {
+            let t = now(&mut tok_req(&runner));
+            (t, queued.remove(0))
+        } else {
+            let (mut f, _, w) = queued.remove(0);
+            let t = match poll_tok(&mut f, &w) {
+                Poll::Ready(t) => Some(t),
+                Poll::Pending => None,
+            };
+            (t, queued.remove(0))
+        };
+        let Some(other) = other else {
+            failure = Some(Json::obj().with("problem", "a freed slot could not be taken in the setup phase").with("round", it));
+            break;
+        };
+        let (rf, rc, rw) = racer;
+        // now: 0 free slots, live tokens {y, other}, `racer` woken but not yet polled (FIFO variant:
+        // by the hand-on of the notification), the rest of `queued` pending and not woken
+        setup_ok &= rc.count() >= 1 && queued.iter().all(|q| q.1.count() == 0);
+        if !setup_ok {
+            // (a different but legal notification pattern: nothing to judge in this round)
+            c.l.count("race_rounds_with_other_setup");
+            drop((rf, y, other, queued));
+            continue;
+        }
+        let base = rc.count();
+        *sh.fut.lock().unwrap() = Some((rf, rw));
+        *sh.tok[0].lock().unwrap() = Some(y);
+        *sh.tok[1].lock().unwrap() = Some(other);
+        for d in &sh.delay {
+            d.store(c.rng.below(40), Ordering::SeqCst);
+        }
+        sh.gen.store(it, Ordering::SeqCst); // go: poll(racer) || drop(y) || drop(other)
+        spin_wait(|| sh.done.load(Ordering::SeqCst) >= 3 * it);
+        // quiescent again: both tokens are gone, the racer was polled exactly once
+        let r = sh.res.lock().unwrap().take().expect("race result");
+        let (rf, _) = sh.fut.lock().unwrap().take().expect("racing request");
+        c.l.evaluations += 1;
+        let live = usize::from(r.is_ready());
+        if r.is_ready() {
+            raced_ready += 1;
+        } else {
+            raced_pending += 1;
+        }
+        let racer_woken = r.is_pending() && rc.count() > base;
+        let others_woken = queued.iter().filter(|q| q.1.count() > 0).count();
+        if !racer_woken && others_woken == 0 {
+            // prove that the slot really is free: an un-woken request gets it when polled by hand
+            let (f, _, w) = &mut queued[0];
+            let got = poll_tok(f, w).is_ready();
+            failure = Some(
+                Json::obj()
+                    .with("problem", format!("{} slot(s) free, {} request(s) pending, none of them holds a wake-up (the racing request {}; polling the first pending request by hand returns a token: {got})", 2 - live, queued.len() + usize::from(r.is_pending()), if r.is_ready() { "got a token" } else { "is still pending" }))
+                    .with("round", it)
+                    .with("limit", 2)
+                    .with("variant", if barger { "late get_token took the freed slot first" } else { "FIFO only" }),
+            );
+        }
+        drop((r, rf, queued));
+        if failure.is_some() {
+            break;
+        }
+    }
+    sh.gen.store(RACE_STOP, Ordering::SeqCst);
+    for h in handles {
+        let _ = h.join();
+    }
+    c.l.add("poll_vs_two_drops_races", raced_ready + raced_pending);
+    c.l.add("race_rounds_where_the_racing_request_got_a_token", raced_ready);
+    c.l.add("race_rounds_where_the_racing_request_stayed_pending", raced_pending);
+    if let Some(f) = failure {
+        c.violation("threads:slot-stranded-after-poll-drop-race", f);
+        return;
+    }
+    c.l.sig(mix(0x13c, c.index));
+}
+
 pub fn run(ctx: &Ctx, evidence: Option<&PathBuf>) -> i32 {
     ctx.run_fixed("directed", ctx.dn(500), history);
     let n = ctx.size(100_000, 10_000_000);
@@ -407,6 +595,15 @@ pub fn run(ctx: &Ctx, evidence: Option<&PathBuf>) -> i32 {
         Scale::Miri => (1, 3, 12),
     };
     ctx.run_cases_serial("threads", runs, |c| thread_stress(c, threads_n, iters));
+    // Run C is timing-sensitive by nature (three spinning threads): serial, not under Miri
+    if !ctx.miri() {
+        let rounds = match ctx.scale {
+            Scale::Full => ctx.size(12_000, 150_000),
+            _ => 3_000,
+        };
+        ctx.run_cases_serial("poll-drop-race", 2, |c| poll_drop_race(c, c.index % 2 == 1, rounds as usize));
+        ctx.gate("poll_vs_two_drops_races", 1000);
+    }
     ctx.gate("requests_that_had_to_wait", 1000);
     ctx.gate("wake_to_acquire_handoffs", 500);
     ctx.gate("cancellations_of_notified_waiters", 100);
@@ -426,6 +623,7 @@ pub fn run(ctx: &Ctx, evidence: Option<&PathBuf>) -> i32 {
         "Run A: limits 1..5, 1..3 runners (original + clones of clones), random histories of 10..70 operations: get_token on any runner (+ first poll), re-poll a queued request, drop a queued request (also one that has already been woken), drop a token, run a token to completion on an EOF transport, hand a token to Token::run on a connection that stays open (the slot stays taken until the peer closes and the future completes, or the future is dropped), drop a token during unwinding, take tokens through a further clone and shut that clone down mid-history (its tokens stay alive); every request has its own counting waker. \
          Oracle after EVERY operation: a get_token never completes while live == limit; a first poll with a free slot and no earlier request queued is Ready; free > 0 and queued != {} => some queued request holds an un-consumed wake; at sampled quiescent points (every woken future re-polled until no wake is outstanding): free == 0 or queue empty. \
          Run B: 12 threads x 8000 iterations on one limit (runner and clones), acquire / hold for a few yields / drop, sometimes poll-once-and-cancel; live counter bumped after acquiring and decremented before dropping (observed <= true), observed > limit = violation; quiescence detector (all threads parked, no wake outstanding) = stranded slot. \
+         Run C: limit 2, both slots taken and three requests queued; one queued request that has been woken is polled by one thread while two other threads each drop a token (spin barrier, random skews; FIFO-only variant and late-get_token variant), repeated for thousands of rounds: at the quiescent point afterwards the racing request has a token or a fresh wake-up, or another queued request has been woken (else the freed slot is stranded; a manual poll confirms that it was free). \
          distinct_nontrivial = distinct (operation history, limit, #runners) (set).",
         &["thread interleavings are whatever the OS / TSan / Miri scheduler produces", "the semaphore's release is a non-additive notify(1): the invariant is checked on un-consumed wakes, not 'as many wakes as free slots'"],
         false,
